@@ -203,12 +203,16 @@ def _prune(d, keep):
 
 
 def _cache_key(eng, tier):
-    """results are reused only for identical inputs: every source file of the package, the verifier, the contracts"""
+    """results are reused only for identical inputs: every top-level module of the package (all functions under contract and
+    everything they call live there; the optimizer sub-packages are never read by the VC generator: hooks are abstract
+    contracts), the verifier, the contracts"""
     import hashlib, glob
     h = hashlib.sha256()
     h.update(tier.encode())
     for m in sorted(eng.src.modules):
-        h.update(eng.src.modules[m].sha256.encode())
+        if m.count(".") <= 1:
+            h.update(m.encode())
+            h.update(eng.src.modules[m].sha256.encode())
     for f in sorted(glob.glob(os.path.join(VERIF, "pyvc", "*.py")) + glob.glob(os.path.join(VERIF, "contracts", "*.py"))):
         h.update(open(f, "rb").read())
     return h.hexdigest()[:24]
